@@ -161,11 +161,13 @@ pub fn arb_mig(migration: bool) -> impl Strategy<Value = Mig> {
         prop::collection::vec(tc, 0..4),
         (lossy(), lossy()),
         (cidlife(), cidlife(), 4u8..=12, 4u8..=12, prop_oneof![20u32..300, 300u32..3000]),
+        // a client that only downloads: after an address change its packets carry nothing but ACKs
+        prop::bool::weighted(0.25),
     )
-        .prop_map(move |(x, moves, spoofs, to_client, (drop_pc, drop_pr), (lc, ls, ccl, scl, ka))| normalize_mig(Mig { x, moves, spoofs, to_client, drop_pc, drop_pr }, migration, (lc, ls, ccl, scl, ka)))
+        .prop_map(move |(x, moves, spoofs, to_client, (drop_pc, drop_pr), (lc, ls, ccl, scl, ka), dl)| normalize_mig(Mig { x, moves, spoofs, to_client, drop_pc, drop_pr }, migration, (lc, ls, ccl, scl, ka), dl))
 }
 
-fn normalize_mig(mut m: Mig, migration: bool, (lc, ls, ccl, scl, ka): (Option<u32>, Option<u32>, u8, u8, u32)) -> Mig {
+fn normalize_mig(mut m: Mig, migration: bool, (lc, ls, ccl, scl, ka): (Option<u32>, Option<u32>, u8, u8, u32), download_only: bool) -> Mig {
     let x = &mut m.x;
     x.net.srv.migration = migration;
     x.net.mtu_steps.clear();
@@ -201,6 +203,12 @@ fn normalize_mig(mut m: Mig, migration: bool, (lc, ls, ccl, scl, ka): (Option<u3
     }
     if x.server.streams.iter().all(|s| s.total < 3000 && s.resp_total < 3000) {
         x.server.streams.push(default_stream(40_000));
+    }
+    if download_only {
+        x.client.streams.clear();
+        x.client.ops.clear();
+        x.server.streams.retain(|s| !s.bidi);
+        x.server.streams.push(default_stream(60_000));
     }
     m.x = normalize(m.x.clone(), gen());
     if m.moves.is_empty() && m.spoofs.is_empty() && m.to_client.is_empty() {
@@ -1193,6 +1201,28 @@ pub fn analyse(m: &Mig, r: &MigRun) -> Result<Facts, Fail> {
     }
     if let Some((t, a)) = r.client_remote_changed {
         return Err(fail("c15/ignore/client-remote-changed", format!("t={t}: the client's remote_address() became {a}")));
+    }
+
+    // ---- conversely: the highest-numbered non-probing packet (ACK-only packets included) arriving from
+    // another address moves the server there at once
+    if migration && sim {
+        let srv = &w.conns[sk];
+        let over = |t: u64| srv.lost_at.is_some_and(|l| l <= t) || srv.closed_at.is_some_and(|l| l <= t);
+        let mut instants: Vec<u64> = qualifying.iter().map(|q| q.0).collect();
+        instants.dedup();
+        for t in instants {
+            if t < r.t0 || over(t) || srv_timeouts.contains(&t) {
+                continue;
+            }
+            let Some(q) = qualifying.iter().filter(|q| q.0 == t).last() else { continue };
+            let after = r.changes.iter().filter(|c| c.t <= t).last().map_or(r.first.remote, |c| c.after.remote);
+            if after != q.1 {
+                return Err(fail(
+                    "c15/follow/non-probing-packet-not-followed",
+                    format!("t={t}: datagram #{} from {} carried the highest-numbered packet so far with frames other than PADDING / PATH_CHALLENGE / PATH_RESPONSE / NEW_CONNECTION_ID, yet the server's path stays {after}", q.2, q.1),
+                ));
+            }
+        }
     }
 
     // ---- every path change has a cause; "validated" has a reason
